@@ -1220,6 +1220,11 @@ def r13_11(ctx):
     fns = [f for q, f in m.functions.items() if q.split(".")[-1] in ("split_lines", "split_and_crop_lines") or "split_lines" in q or "split_and_crop_lines" in q]
     if not fns:
         raise AnchorVanished("segment: split_lines / split_and_crop_lines not found")
+    # helpers of the module that those functions call (a shared generator that walks the text line by line) belong to them
+    for f0 in list(fns):
+        for c in walk_local(f0.node):
+            if isinstance(c, ast.Call) and isinstance(c.func, ast.Name) and c.func.id in m.functions and m.functions[c.func.id] not in fns:
+                fns.append(m.functions[c.func.id])
     for f in fns:
         for x in walk_local(f.node):
             if not (isinstance(x, ast.Call) and isinstance(x.func, ast.Attribute)):
